@@ -289,6 +289,61 @@ pub fn all_cases() -> Vec<Case> {
             });
         }
     }
+    // E2. configurations with several entries. The server's configuration is an array: every entry is served, also two
+    //     entries on one port that bind different kinds of socket (a tcp entry and a udp entry). The client's `index` names the
+    //     entry of `servers` it uses (the other entry here carries a wrong password, so a flow only works through the right one).
+    {
+        let first = |json: String| -> serde_json::Value { serde_json::from_str::<serde_json::Value>(&json).unwrap()[0].clone() };
+        let client_entry = |json: String| -> serde_json::Value { serde_json::from_str::<serde_json::Value>(&json).unwrap()["servers"][0].clone() };
+        for cipher in ["aes-256-gcm", "2022-blake3-aes-128-gcm", "2022-blake3-chacha20-poly1305"] {
+            let k = key_for(&mut g, cipher);
+            let tcp_entry = first(server_json("shadowsocks", cipher, Some("tcp"), &k, &[], false));
+            let udp_entry = first(server_json("shadowsocks", cipher, Some("udp"), &k, &[], false));
+            v.push(Case {
+                class: "entries".into(),
+                label: format!("shared-port/shadowsocks-tcp+shadowsocks-udp/{cipher}"),
+                server_json: serde_json::Value::Array(vec![tcp_entry.clone(), udp_entry.clone()]).to_string(),
+                client_json: client_json("shadowsocks", cipher, Some("tcp_and_udp"), &k, false),
+                expect: Some((true, true, true, true)),
+                failing_side: String::new(),
+                canary_tcp: true,
+                canary_udp: true,
+            });
+            let tk = key_for(&mut g, "aes-128-gcm");
+            let trojan_entry = first(server_json("trojan", "aes-128-gcm", None, &tk, &[], false));
+            v.push(Case {
+                class: "entries".into(),
+                label: format!("shared-port/trojan+shadowsocks-udp/{cipher}"),
+                server_json: serde_json::Value::Array(vec![trojan_entry, udp_entry.clone()]).to_string(),
+                client_json: client_json("shadowsocks", cipher, Some("udp"), &k, false),
+                expect: Some((true, true, false, true)),
+                failing_side: String::new(),
+                canary_tcp: false,
+                canary_udp: true,
+            });
+            // two entries on two ports, and the client's index
+            let mut second = first(server_json("shadowsocks", cipher, Some("tcp"), &k, &[], false));
+            second["port"] = (SERVER_PORT + 1).into();
+            let other = key_for(&mut g, "aes-128-gcm");
+            let first_entry = first(server_json("shadowsocks", "aes-128-gcm", Some("tcp"), &other, &[], false));
+            for index in [0usize, 1] {
+                let mut good = client_entry(client_json("shadowsocks", cipher, Some("tcp"), &k, false));
+                good["port"] = (SERVER_PORT + 1).into();
+                let bad = client_entry(client_json("shadowsocks", "aes-128-gcm", Some("tcp"), &key_for(&mut g, "aes-128-gcm"), false));
+                let servers = if index == 0 { vec![good, bad] } else { vec![bad, good] };
+                v.push(Case {
+                    class: "entries".into(),
+                    label: format!("two-ports/index-{index}/{cipher}"),
+                    server_json: serde_json::Value::Array(vec![first_entry.clone(), second.clone()]).to_string(),
+                    client_json: serde_json::json!({ "port": CLIENT_PORT, "index": index, "mode": "tcp", "servers": servers }).to_string(),
+                    expect: Some((true, false, true, false)),
+                    failing_side: String::new(),
+                    canary_tcp: true,
+                    canary_udp: false,
+                });
+            }
+        }
+    }
     // F. key lists "iPSK1:...:iPSKn:uPSK" of the Shadowsocks 2022 AES ciphers: the identity headers the client puts on the
     //    wire (stream and datagram) must be the chain the list spells, in that order
     for cipher in ["2022-blake3-aes-128-gcm", "2022-blake3-aes-256-gcm"] {
